@@ -59,6 +59,8 @@ ExpectV(kind, v, rt) ==
     [] kind = "rawInMap"  -> v = Obj(<<[k |-> "a", v |-> Num("1")]>>)
     [] kind = "rawGarbage" -> IsStr(v)
     [] kind \in {"err", "valuerErr"} -> v = S("E!")
+    [] kind \in {"nilErrPtr", "valuerNilErrPtr"} -> v = S("<nil>")       \* an error whose Error method cannot be called is still a string
+    [] kind = "panicErr" -> IsStr(v)
     [] kind = "ansi"      -> v = S("AV")
     [] kind \in {"nil", "strptrnil"} -> v = Num("null")
     [] kind = "bytes"     -> v = S("AQID")
